@@ -24,13 +24,21 @@ use crate::stark::{build, prove_with, Scenario};
 use crate::toy::Toy;
 
 thread_local! {
-    static ROLES: RefCell<Vec<(String, Vec<u64>)>> = RefCell::new(Vec::new());
+    static ROLES: RefCell<Vec<(String, Vec<Value>)>> = RefCell::new(Vec::new());
 }
-fn role(name: &str, v: Vec<u64>) {
+fn role(name: &str, v: Vec<Value>) {
     ROLES.with(|r| r.borrow_mut().push((name.to_string(), v)));
 }
-fn vals<E: FieldElement<BaseField = Toy>>(es: &[E]) -> Vec<u64> {
-    es.iter().map(|e| e.base_element(0).v()).collect()
+/// a base-field element is written as an integer, an extension element as the list of its coefficients
+fn val<E: FieldElement<BaseField = Toy>>(e: &E) -> Value {
+    if E::EXTENSION_DEGREE == 1 {
+        json!(e.base_element(0).v())
+    } else {
+        json!((0..E::EXTENSION_DEGREE).map(|i| e.base_element(i).v()).collect::<Vec<_>>())
+    }
+}
+fn vals<E: FieldElement<BaseField = Toy>>(es: &[E]) -> Vec<Value> {
+    es.iter().map(|e| val(e)).collect()
 }
 
 /// ShapeAir with the three challenge-producing methods recorded (the values are the library's own defaults).
@@ -115,7 +123,7 @@ fn assertion_json<E: FieldElement<BaseField = Toy>>(a: &Assertion<E>, n: usize) 
     json!({"col": a.column(), "first": a.first_step(), "stride": a.stride(), "steps": steps, "values": vals(a.values())})
 }
 
-fn one(sc: &Scenario) -> Result<Value, String> {
+fn one<E: FieldElement<BaseField = Toy>>(sc: &Scenario) -> Result<Value, String> {
     let b = build::<Toy>(sc);
     clog_take();
     // a cheating prover: the cell (column, step) is changed after the public inputs were derived, the original claim is kept
@@ -138,8 +146,9 @@ fn one(sc: &Scenario) -> Result<Value, String> {
         Err(p) => format!("panic@{}", panic_key(&p)),
     };
     let vlog = clog_take();
-    let roles: Vec<(String, Vec<u64>)> = ROLES.with(|r| std::mem::take(&mut *r.borrow_mut()));
-    let get = |name: &str| -> Vec<u64> { roles.iter().find(|(n, _)| n == name).map(|(_, v)| v.clone()).unwrap_or_default() };
+    let roles: Vec<(String, Vec<Value>)> = ROLES.with(|r| std::mem::take(&mut *r.borrow_mut()));
+    let get = |name: &str| -> Vec<Value> { roles.iter().find(|(n, _)| n == name).map(|(_, v)| v.clone()).unwrap_or_default() };
+    let zero = val(&E::ZERO);
 
     let sh = &sc.shape;
     let air = ShapeAir::<Toy>::new(sh.trace_info(), b.inputs.clone(), crate::stark::options_of(sc));
@@ -153,20 +162,23 @@ fn one(sc: &Scenario) -> Result<Value, String> {
     // the out-of-domain point: the draw that follows the absorption of the constraint commitment; the folding challenges: the
     // draw that follows the absorption of each FRI layer commitment; the Lagrange random elements: the draws between the
     // absorption of the main trace commitment and the auxiliary random elements
-    let after = |d: &[u8], k: usize| -> Option<u64> {
-        let i = vlog.iter().position(|c| c.op == "reseed" && c.data == d)?;
-        let c = vlog.get(i + 1 + k)?;
-        if c.op != "draw" || c.data.len() != 2 {
+    let drawn = |c: &crate::rec::CCall| -> Option<Value> {
+        if c.op != "draw" || c.data.len() != 2 * E::EXTENSION_DEGREE {
             return None;
         }
-        Some(u16::from_le_bytes([c.data[0], c.data[1]]) as u64)
+        let cs: Vec<u64> = c.data.chunks(2).map(|b| u16::from_le_bytes([b[0], b[1]]) as u64).collect();
+        Some(if E::EXTENSION_DEGREE == 1 { json!(cs[0]) } else { json!(cs) })
+    };
+    let after = |d: &[u8], k: usize| -> Option<Value> {
+        let i = vlog.iter().position(|c| c.op == "reseed" && c.data == d)?;
+        drawn(vlog.get(i + 1 + k)?)
     };
     let z = after(&croot.as_bytes(), 0);
-    let alphas: Vec<Option<u64>> = froots.iter().take(layers).map(|r| after(&r.as_bytes(), 0)).collect();
+    let alphas: Vec<Option<Value>> = froots.iter().take(layers).map(|r| after(&r.as_bytes(), 0)).collect();
     let log_n = sh.n.ilog2() as usize;
-    let lrands: Vec<u64> = if sh.lagrange {
+    let lrands: Vec<Value> = if sh.lagrange {
         let i = vlog.iter().position(|c| c.op == "reseed").unwrap_or(0);
-        (0..log_n).filter_map(|k| vlog.get(i + 1 + k)).filter(|c| c.op == "draw").map(|c| u16::from_le_bytes([c.data[0], c.data[1]]) as u64).collect()
+        (0..log_n).filter_map(|k| vlog.get(i + 1 + k)).filter_map(|c| drawn(c)).collect()
     } else {
         vec![]
     };
@@ -176,40 +188,52 @@ fn one(sc: &Scenario) -> Result<Value, String> {
         p.dedup();
         p
     };
-    let (frame, hz) = proof.ood_frame.clone().parse::<Toy>(sh.width, sh.aux_width(), ccols).map_err(|e| format!("ood frame: {e}"))?;
+    let (frame, hz) = proof.ood_frame.clone().parse::<E>(sh.width, sh.aux_width(), ccols).map_err(|e| format!("ood frame: {e}"))?;
     let cur = vals(frame.current_row());
     let nxt = vals(frame.next_row());
-    let lag: Vec<u64> = frame.lagrange_kernel_frame().map(|l| vals(l.inner())).unwrap_or_default();
+    let lag: Vec<Value> = frame.lagrange_kernel_frame().map(|l| vals(l.inner())).unwrap_or_default();
     let nq = positions.len();
-    let mut tables: Vec<Vec<Vec<u64>>> = vec![];
+    let mut tables: Vec<Vec<Vec<Value>>> = vec![];
     // a verifier that rejects before the query phase draws no positions: nothing is opened as far as it is concerned
     for (seg, q) in proof.trace_queries.iter().enumerate().filter(|_| nq > 0) {
         let w = if seg == 0 { sh.width } else { sh.aux_width() };
-        let (_p, t) = q.clone().parse::<H, Toy>(lde, nq, w).map_err(|e| format!("trace queries: {e}"))?;
-        tables.push(t.rows().map(|r| vals(r)).collect());
+        if seg == 0 {
+            let (_p, t) = q.clone().parse::<H, Toy>(lde, nq, w).map_err(|e| format!("trace queries: {e}"))?;
+            tables.push(t.rows().map(|r| vals(r)).collect());
+        } else {
+            let (_p, t) = q.clone().parse::<H, E>(lde, nq, w).map_err(|e| format!("trace queries: {e}"))?;
+            tables.push(t.rows().map(|r| vals(r)).collect());
+        }
     }
-    let crow: Vec<Vec<u64>> = if nq > 0 {
-        let (_p, ct) = proof.constraint_queries.clone().parse::<H, Toy>(lde, nq, ccols).map_err(|e| format!("constraint queries: {e}"))?;
+    let crow: Vec<Vec<Value>> = if nq > 0 {
+        let (_p, ct) = proof.constraint_queries.clone().parse::<H, E>(lde, nq, ccols).map_err(|e| format!("constraint queries: {e}"))?;
         ct.rows().map(|r| vals(r)).collect()
     } else {
         vec![]
     };
-    let fri: Vec<Vec<Vec<u64>>> = if nq > 0 {
-        let (lq, _lp) = proof.fri_proof.clone().parse_layers::<H, Toy>(lde, fold).map_err(|e| format!("fri layers: {e}"))?;
+    let fri: Vec<Vec<Vec<Value>>> = if nq > 0 {
+        let (lq, _lp) = proof.fri_proof.clone().parse_layers::<H, E>(lde, fold).map_err(|e| format!("fri layers: {e}"))?;
         lq.iter().map(|flat| flat.chunks(fold).map(|r| vals(r)).collect()).collect()
     } else {
         vec![vec![]; layers]
     };
-    let rem: Vec<u64> = vals(&proof.fri_proof.parse_remainder::<Toy>().map_err(|e| format!("remainder: {e}"))?);
+    let rem: Vec<Value> = vals(&proof.fri_proof.parse_remainder::<E>().map_err(|e| format!("remainder: {e}"))?);
 
-    let rands_e: Vec<Toy> = get("rands").iter().map(|&v| Toy::new(v)).collect();
+    // the auxiliary random elements as field elements again (for the auxiliary assertions of the AIR)
+    let rands_e: Vec<E> = get("rands").iter().map(|v| {
+        let cs: Vec<Toy> = match v {
+            Value::Array(a) => a.iter().map(|x| Toy::new(x.as_u64().unwrap_or(0))).collect(),
+            x => vec![Toy::new(x.as_u64().unwrap_or(0))],
+        };
+        E::slice_from_base_elements(&cs)[0]
+    }).collect();
     let main_as: Vec<Value> = {
         let mut a = air.get_assertions();
         a.sort();
         a.iter().map(|x| assertion_json(x, sh.n)).collect()
     };
     let aux_as: Vec<Value> = if sh.aux_width() > 0 {
-        let mut a = air.get_aux_assertions::<Toy>(&rands_e);
+        let mut a = air.get_aux_assertions::<E>(&rands_e);
         a.sort();
         a.iter().map(|x| assertion_json(x, sh.n)).collect()
     } else {
@@ -222,8 +246,8 @@ fn one(sc: &Scenario) -> Result<Value, String> {
         "asserts": main_as, "aux_asserts": aux_as, "aux_degs": sh.aux_degs, "lagrange": sh.lagrange,
         "cheat": sc.lde_cheat.is_some() || sc.comp_cheat || sc.corrupt.is_some() || sc.aux_corrupt.is_some()});
     let ev2 = json!({"g": Toy::get_root_of_unity(sh.n.ilog2()).v(), "glde": Toy::get_root_of_unity(lde.ilog2()).v(), "offset": air.domain_offset().v(),
-        "rands": get("rands"), "lrands": lrands, "cct": get("cct"), "ccb": get("ccb"), "lct": get("lct"), "lcb": get("lcb").first().cloned().unwrap_or(0)});
-    let ev3 = json!({"z": z.unwrap_or(0), "dt": get("dt"), "dc": get("dc"), "dl": get("dl").first().cloned().unwrap_or(0), "alphas": alphas.iter().map(|a| a.unwrap_or(0)).collect::<Vec<_>>(),
+        "rands": get("rands"), "lrands": lrands, "cct": get("cct"), "ccb": get("ccb"), "lct": get("lct"), "lcb": get("lcb").first().cloned().unwrap_or(zero.clone()), "deg": E::EXTENSION_DEGREE});
+    let ev3 = json!({"z": z.unwrap_or(zero.clone()), "dt": get("dt"), "dc": get("dc"), "dl": get("dl").first().cloned().unwrap_or(zero.clone()), "alphas": alphas.iter().map(|a| a.clone().unwrap_or(zero.clone())).collect::<Vec<_>>(),
         "cur": cur, "nxt": nxt, "lag": lag, "hz": vals(&hz),
         "positions": positions, "main_rows": tables.get(0).cloned().unwrap_or_default(), "aux_rows": tables.get(1).cloned().unwrap_or_default(),
         "comp_rows": crow, "fri": fri, "rem": rem});
@@ -244,7 +268,11 @@ pub fn main(args: &[String]) -> i32 {
     let mut skipped: Vec<Value> = vec![];
     let mut n = 0;
     for sc in &scs {
-        match guarded(|| one(sc)) {
+        match guarded(|| match sc.ext {
+            1 => one::<Toy>(sc),
+            2 => one::<winter_math::fields::QuadExtension<Toy>>(sc),
+            _ => one::<winter_math::fields::CubeExtension<Toy>>(sc),
+        }) {
             Ok(Ok(v)) => {
                 writeln!(out, "{}", v).unwrap();
                 n += 1;
